@@ -95,6 +95,10 @@ class C02(Property):
                         s.add("G.%d" % k)
                     s.add("S.1", "S.2")
                     out.append(s.line())
+        # datagrams no holder of a connection key made: sealed under guessable keys (all key bytes equal) for every cipher, key id
+        # byte and nonce half - a connection must not hold any key an outsider can guess, in any of its four key slots
+        from props import c09
+        out += c09.forged_lines(rng, thorough)
         return out
 
     def model_line(self, line, impl_out):
@@ -147,6 +151,21 @@ class C02(Property):
         ops = ops[1:]
         if len(ops) != len(outs):
             return "driver returned %d results for %d ops" % (len(outs), len(ops))
+        if any(o.startswith("Y.") for o in ops):
+            # forged datagrams: none may reach an interface; the genuine traffic afterwards still does
+            forged = False
+            for i, (o, r) in enumerate(zip(ops, outs)):
+                if o.startswith("Y."):
+                    forged = True
+                elif o.startswith("O.") and forged:
+                    if r != "w-":
+                        return ("a datagram sealed by an outsider under a guessable key (all key bytes equal) was opened and its payload written "
+                                "to the interface of node %s: %s") % (o[2:], r[:50])
+                    forged = False
+                elif o.startswith("P."):
+                    if o.split(".")[2] not in outs[i + 2]:
+                        return "genuine payload no longer delivered after the forged datagrams"
+            return None
         frames = []
         delivered_ok = {}
         i = 0
@@ -191,6 +210,14 @@ class C02(Property):
                     sent_meta.append((node, d))
             elif o[0] in "JD":
                 pass
+        # reflection: a datagram injected at the very node that sent it - whatever source address is claimed - is dropped without an
+        # answer (a node never answers, let alone completes, a handshake with itself)
+        for i, (o, r) in enumerate(zip(ops, outs)):
+            if o.startswith("J."):
+                k, dst, src = [int(x) for x in o.split(".")[1:4]]
+                if k < len(sent_meta) and sent_meta[k][0] == dst and nu.emissions(r):
+                    return ("datagram %d, sent by node %d itself, was answered (%s) when reflected back to node %d with claimed source %d"
+                            % (k, dst, r[:40], dst, src))
         for k, lst in delivered_ok.items():
             if k >= len(sent_meta):
                 continue
